@@ -97,7 +97,8 @@ Ltac step_cases H :=
           [apply phase_eqb_eq in Eph | apply phase_eqb_neq in Eph]
         | idtac
         | idtac
-        | destruct (phase_eqb (ph s) PRunning) eqn:Eph;
+        | destruct (is_locking (sh s)) eqn:Elk; try discriminate H;
+          destruct (phase_eqb (ph s) PRunning) eqn:Eph;
           [apply phase_eqb_eq in Eph | apply phase_eqb_neq in Eph]
         | destruct (closed s) eqn:Ecl
         | destruct (mem t (bounced s)) eqn:Emb;
@@ -114,6 +115,8 @@ Ltac step_cases H :=
       | destruct (sh s) eqn:Esh;
         [ destruct (phase_eqb (ph s) PRunning) eqn:Eph;
           [apply phase_eqb_eq in Eph | apply phase_eqb_neq in Eph]
+        | destruct (forallb (fun t => negb (is_reader (subs s t))) (seq 0 (next s))) eqn:Erd;
+          try discriminate H
         | idtac
         | destruct (forallb is_exited (ws s)) eqn:Eall; try discriminate H
         | idtac | idtac | idtac ] ];
@@ -135,10 +138,11 @@ Definition alive_w (w : wst) : Prop := w = WIdle \/ exists t, w = WBusy t.
 Definition sh_ph_ok (x : shst) (p : phase) : Prop :=
   match x with
   | ShIdle => p = PInit \/ p = PStarted \/ p = PRunning
+  | ShLocking => p = PRunning
   | ShDone => p = PTerminated
   | _ => p = PShutdown
   end.
-Definition dn_of (x : shst) : bool := match x with ShIdle | ShClose => false | _ => true end.
+Definition dn_of (x : shst) : bool := match x with ShIdle | ShLocking | ShClose => false | _ => true end.
 Definition closed_of (x : shst) : bool := match x with ShSetTerm | ShDone => true | _ => false end.
 Definition joined (x : shst) : bool := match x with ShCloseQ | ShSetTerm | ShDone => true | _ => false end.
 
@@ -193,7 +197,7 @@ Qed.
 Lemma sh_ph_started s : InvA s -> ph s = PStarted -> sh s = ShIdle.
 Proof. intros I E. pose proof (a_sh_ph _ I) as H. rewrite E in H. destruct (sh s); simpl in H; try discriminate; auto. Qed.
 
-Lemma sh_ph_running s : InvA s -> ph s = PRunning -> sh s = ShIdle.
+Lemma sh_ph_running s : InvA s -> ph s = PRunning -> sh s = ShIdle \/ sh s = ShLocking.
 Proof. intros I E. pose proof (a_sh_ph _ I) as H. rewrite E in H. destruct (sh s); simpl in H; try discriminate; auto. Qed.
 
 Lemma sh_ph_init s : InvA s -> ph s = PInit -> sh s = ShIdle.
@@ -210,7 +214,7 @@ Proof.
   - revert Hk; upd_split k (next s); simpl; intros Hk; try discriminate Hk.
     apply (a_starter_ph _ I k); assumption.
   - exfalso. apply E. apply (a_starter_uniq _ I); [assumption | rewrite Esub; reflexivity].
-  - pose proof (a_starter_ph _ I k Hk). congruence.
+  - pose proof (a_starter_ph _ I k Hk). pose proof (a_sh_ph _ I) as P. rewrite Esh in P. simpl in P. congruence.
   - pose proof (a_starter_ph _ I k Hk). pose proof (a_sh_ph _ I) as P. rewrite Esh in P. simpl in P. congruence.
 Qed.
 
@@ -267,9 +271,9 @@ Proof.
   step_cases H; pose proof (a_ws_started _ I) as P; pose proof (a_sh_ph _ I) as Q;
   simpl; intros Hp; rewrite ?setw_length, ?repeat_length; try reflexivity;
   try (apply P; assumption); try discriminate Hp;
-  try (apply P; rewrite Eph; reflexivity).
+  try (apply P; rewrite Eph; reflexivity);
+  try (rewrite Esh in Q; simpl in Q; apply P; rewrite Q; reflexivity).
   - apply (a_setrun _ I t Esub).
-  - rewrite Esh in Q. simpl in Q. apply P. rewrite Q. reflexivity.
 Qed.
 
 Lemma stepA_ws_init o s c s' : InvA s -> step o s c = Some s' -> ph s' = PInit -> ws s' = [].
@@ -516,7 +520,7 @@ Qed.
 Lemma exited_not_running s : InvA s -> In WExited (ws s) -> ph s <> PRunning.
 Proof.
   intros I Hin E. assert (D : dn s = true) by (apply (a_post _ I WExited Hin); reflexivity).
-  rewrite (a_dn_sh _ I), (sh_ph_running _ I E) in D. discriminate D.
+  rewrite (a_dn_sh _ I) in D. destruct (sh_ph_running _ I E) as [X|X]; rewrite X in D; discriminate D.
 Qed.
 
 Lemma stepB_late_q o s c s' : InvA s -> InvB s -> step o s c = Some s' ->
@@ -731,26 +735,29 @@ Qed.
 
 Definition live (x : sst) : Prop := x <> SNone /\ forall r, x <> SRet r.
 
-(* the only place where an Execute call can be blocked: parked on the send with no room *)
+(* the only places where an Execute call can be blocked: parked on the send with no room, or at
+   the lock while a Shutdown call is waiting for it (the executor is being shut down) *)
 Lemma sub_blocked_only_without_room o s t :
   live (subs s t) -> step o s (Sub t) = None ->
-  subs s t = SParked /\ In t (skipn (cap s) (queue s)).
+  (subs s t = SParked /\ In t (skipn (cap s) (queue s))) \/ (subs s t = SCheck /\ sh s = ShLocking).
 Proof.
   intros [L1 L2] H. cbn [step] in H. destruct (subs s t) eqn:E; try discriminate H;
   try (exfalso; apply L1; reflexivity); try (exfalso; eapply L2; reflexivity).
   - destruct (ph s); discriminate H.
   - destruct (phase_eqb (ph s) PInit); discriminate H.
-  - destruct (phase_eqb (ph s) PRunning); discriminate H.
+  - right. destruct (sh s); simpl in H; try (destruct (phase_eqb (ph s) PRunning); discriminate H).
+    split; reflexivity.
   - destruct (closed s); discriminate H.
   - destruct (mem t (bounced s)); [discriminate H|].
     destruct (mem t (skipn (cap s) (queue s))) eqn:M; [|discriminate H].
-    split; [reflexivity | apply mem_In; exact M].
+    left. split; [reflexivity | apply mem_In; exact M].
 Qed.
 
-Lemma sub_room o s t : live (subs s t) -> length (queue s) <= cap s -> step o s (Sub t) <> None.
+Lemma sub_room o s t : live (subs s t) -> sh s = ShIdle -> length (queue s) <= cap s -> step o s (Sub t) <> None.
 Proof.
-  intros L Hroom H. destruct (sub_blocked_only_without_room o s t L H) as [_ Hin].
-  rewrite skipn_all2 in Hin by exact Hroom. contradiction.
+  intros L Hs Hroom H. destruct (sub_blocked_only_without_room o s t L H) as [[_ Hin]|[_ Hl]].
+  - rewrite skipn_all2 in Hin by exact Hroom. contradiction.
+  - congruence.
 Qed.
 
 (* own steps left until Execute returns, on a running executor *)
@@ -768,7 +775,8 @@ Proof.
   - rewrite R in H. simpl in H. inversion H; subst. simpl. rewrite upd_same. simpl. lia.
   - inversion H; subst. simpl. rewrite upd_same. simpl. lia.
   - inversion H; subst. simpl. rewrite upd_same. simpl. lia.
-  - rewrite R in H. simpl in H. inversion H; subst. simpl. rewrite upd_same. simpl. lia.
+  - destruct (is_locking (sh s)); [discriminate H|].
+    rewrite R in H. simpl in H. inversion H; subst. simpl. rewrite upd_same. simpl. lia.
   - destruct (closed s); inversion H; subst; simpl; rewrite upd_same; simpl; lia.
   - destruct (mem t (bounced s)); [inversion H; subst; simpl; rewrite upd_same; simpl; lia|].
     destruct (mem t (skipn (cap s) (queue s))); [discriminate H|].
@@ -811,13 +819,13 @@ Qed.
 Lemma run_cons_some o s c s' r : step o s c = Some s' -> run o s (c :: r) = run o s' r.
 Proof. intros E. simpl. unfold step'. rewrite E. reflexivity. Qed.
 
-Lemma solo_execute o s : InvA s -> ph s = PRunning -> length (queue s) < cap s ->
+Lemma solo_execute o s : InvA s -> ph s = PRunning -> sh s = ShIdle -> length (queue s) < cap s ->
   let s' := run o s [Call; Sub (next s); Sub (next s); Sub (next s); Sub (next s)] in
   subs s' (next s) = SRet ROk /\ queue s' = queue s ++ [next s] /\ ran s' = ran s.
 Proof.
-  intros I R Hroom.
+  intros I R Hs Hroom.
   assert (C : closed s = false).
-  { rewrite (a_closed_sh _ I), (sh_ph_running _ I R). reflexivity. }
+  { rewrite (a_closed_sh _ I), Hs. reflexivity. }
   pose proof (a_bounced _ I C) as Bo.
   set (t := next s).
   set (s1 := mk (ph s) (nw s) (cap s) (queue s) (closed s) (dn s) (ws s) (upd (subs s) t SGet) (sh s)
@@ -827,7 +835,9 @@ Proof.
   { cbn [step]. unfold s1 at 1. cbn [subs]. rewrite upd_same. unfold s1 at 1. cbn [ph]. rewrite R. reflexivity. }
   set (s2 := set_sub s1 t SCheck) in *.
   assert (E3 : step o s2 (Sub t) = Some (set_sub s2 t SPark)).
-  { cbn [step]. unfold s2 at 1. cbn [subs set_sub]. rewrite upd_same. unfold s2 at 1, s1 at 1. cbn [ph set_sub]. rewrite R. reflexivity. }
+  { cbn [step]. unfold s2 at 1. cbn [subs set_sub]. rewrite upd_same.
+    assert (S2 : sh s2 = ShIdle) by exact Hs. rewrite S2. cbn [is_locking].
+    unfold s2 at 1, s1 at 1. cbn [ph set_sub]. rewrite R. reflexivity. }
   set (s3 := set_sub s2 t SPark) in *.
   assert (E4 : step o s3 (Sub t) = Some (park s3 t)).
   { cbn [step]. unfold s3 at 1. cbn [subs set_sub]. rewrite upd_same.
@@ -890,6 +900,7 @@ Proof.
          | |- context [match ?x with _ => _ end] => is_var x; destruct x
          | |- context [if phase_eqb ?a ?b then _ else _] => destruct (phase_eqb a b)
          | |- context [if mem ?a ?b then _ else _] => destruct (mem a b)
+         | |- context [if is_locking ?a then _ else _] => destruct (is_locking a)
          | |- context [if forallb ?a ?b then _ else _] => destruct (forallb a b)
          end; try exact I; try reflexivity; try discriminate.
 Qed.
@@ -1011,4 +1022,201 @@ Proof.
   intros s. destruct (workers_count o n c cs) as [_ [L _]]. fold s in L.
   pose proof (busy_length (ws s)) as B.
   destruct L as [L|L]; [rewrite L in *; simpl in *; lia | lia].
+Qed.
+
+(* ------------------------------------------------------------------ the read/write lock: no Execute is between
+   its state check and its enqueue once Shutdown has changed the state *)
+
+Definition lock_free (x : shst) : Prop := x = ShIdle \/ x = ShLocking.
+
+Record InvR (s : st) : Prop := mkR {
+  r_reader : forall t, is_reader (subs s t) = true -> lock_free (sh s);
+  r_beyond : forall t, In t (skipn (cap s) (queue s)) -> subs s t = SParked;
+  r_bounced : bounced s = []
+}.
+
+Lemma InvR_init n c : InvR (init n c).
+Proof. constructor; simpl; intros; try discriminate; try reflexivity. destruct c; simpl in H; contradiction. Qed.
+
+Lemma forallb_seq_lt (f : nat -> bool) n : forallb f (seq 0 n) = true -> forall t, t < n -> f t = true.
+Proof. intros H t Ht. rewrite forallb_forall in H. apply H. apply in_seq. lia. Qed.
+
+Lemma skipn_succ_sub {A} n (l : list A) x : In x (skipn (S n) l) -> In x (skipn n l).
+Proof.
+  revert n; induction l as [|a l IH]; intros n H; [destruct n; simpl in H; contradiction|].
+  destruct n.
+  - simpl in H. simpl. right. exact H.
+  - change (In x (skipn (S n) l)) in H. change (In x (skipn n l)). apply IH. exact H.
+Qed.
+
+Lemma skipn_app_one {A} n (l : list A) a x : In x (skipn n (l ++ [a])) -> In x (skipn n l) \/ x = a.
+Proof.
+  revert n; induction l as [|b l IH]; intros n H.
+  - destruct n; simpl in H; [destruct H as [H|[]]; auto | destruct n; simpl in H; contradiction].
+  - destruct n; simpl in *.
+    + destruct H as [H|H]; [left; left; exact H|]. apply in_app_or in H.
+      destruct H as [H|[H|[]]]; [left; right; exact H | right; auto].
+    + apply IH. exact H.
+Qed.
+
+Lemma step_InvR o s c s' : InvA s -> InvR s -> step o s c = Some s' -> InvR s'.
+Proof.
+  intros I R H. constructor.
+  - (* readers only while the lock can be held *)
+    step_cases H; pose proof (r_reader _ R) as P; simpl; intros k Hk;
+    try (apply (P k); assumption); unfold lock_free; auto;
+    try (revert Hk; upd_split k t; simpl; intros Hk; try discriminate Hk; try (apply (P k); assumption);
+         try (apply (P t); rewrite Esub; reflexivity)).
+    + revert Hk; upd_split k (next s); simpl; intros Hk; [discriminate Hk | apply (P k); assumption].
+    + (* SCheck -> SPark: the lock was acquired, so nobody is past the CAS *)
+      pose proof (a_sh_ph _ I) as Q. rewrite Eph in Q.
+      destruct (sh s); simpl in Q, Elk; try discriminate; auto.
+    + (* CAS: no reader left *)
+      exfalso. assert (Hl : k < next s) by (apply (live_lt _ _ I); destruct (subs s k); discriminate).
+      pose proof (forallb_seq_lt _ _ Erd k Hl) as Hn. simpl in Hn. rewrite Hk in Hn. discriminate Hn.
+    + exfalso. destruct (P k Hk) as [X|X]; rewrite X in Esh; discriminate Esh.
+    + exfalso. destruct (P k Hk) as [X|X]; rewrite X in Esh; discriminate Esh.
+    + exfalso. destruct (P k Hk) as [X|X]; rewrite X in Esh; discriminate Esh.
+    + exfalso. destruct (P k Hk) as [X|X]; rewrite X in Esh; discriminate Esh.
+  - (* beyond the capacity only parked senders *)
+    step_cases H; pose proof (r_beyond _ R) as P; simpl; intros k Hk;
+    try (apply P; assumption);
+    try (assert (Hp : subs s k = SParked) by (apply P; assumption);
+         upd_split k t; [rewrite Hp in Esub; discriminate Esub | exact Hp]);
+    try (apply P; rewrite Eq; apply skipn_succ_sub; simpl; exact Hk).
+    + assert (Hp : subs s k = SParked) by (apply P; assumption).
+      upd_split k (next s); [rewrite (a_none _ I) in Hp by lia; discriminate Hp | exact Hp].
+    + (* park *) apply skipn_app_one in Hk. upd_split k t; [reflexivity|].
+      destruct Hk as [Hk|Hk]; [apply P; exact Hk | contradiction].
+    + exfalso. rewrite (r_bounced _ R) in Emb. discriminate Emb.
+    + (* returns nil: it was not beyond *) upd_split k t; [|apply P; exact Hk].
+      exfalso. apply mem_nIn in Emq. exact (Emq Hk).
+    + (* close: nothing beyond the capacity is left *)
+      exfalso. assert (length (firstn (cap s) (queue s)) <= cap s) by apply firstn_le_length.
+      rewrite skipn_all2 in Hk by assumption. contradiction.
+  - (* nothing is ever thrown out by close(queue) *)
+    step_cases H; pose proof (r_bounced _ R) as P; simpl; try exact P.
+    rewrite P. simpl.
+    destruct (skipn (cap s) (queue s)) as [|x l] eqn:E; [reflexivity|]. exfalso.
+    assert (Hx : subs s x = SParked) by (apply (r_beyond _ R); rewrite E; left; reflexivity).
+    assert (Hr : is_reader (subs s x) = true) by (rewrite Hx; reflexivity).
+    destruct (r_reader _ R x Hr) as [X|X]; rewrite X in Esh; discriminate Esh.
+Qed.
+
+Theorem reach_InvR o n c cs : InvR (run o (init n c) cs).
+Proof.
+  assert (G : InvA (run o (init n c) cs) /\ InvR (run o (init n c) cs)).
+  { apply (run_inv o (fun s => InvA s /\ InvR s)).
+    - intros s ch s' [I R] H. split; [eapply step_InvA | eapply step_InvR]; eauto.
+    - split; [apply InvA_init | apply InvR_init]. }
+  apply G.
+Qed.
+
+(* everything that entered the queue did so before Shutdown changed the state *)
+Lemma step_all_early o s c s' : InvA s -> InvR s ->
+  (forall t, In t (entered s) -> In t (early s)) -> step o s c = Some s' ->
+  forall t, In t (entered s') -> In t (early s').
+Proof.
+  intros I R P H. step_cases H; simpl; intros k Hk; try (apply P; assumption).
+  assert (Rn : ph s = PRunning).
+  { assert (Hr : is_reader (subs s t) = true) by (rewrite Esub; reflexivity).
+    pose proof (a_past _ I t) as Q. rewrite Esub in Q. specialize (Q eq_refl).
+    pose proof (a_sh_ph _ I) as S.
+    destruct (r_reader _ R t Hr) as [X|X]; rewrite X in S; simpl in S;
+    [destruct S as [S|[S|S]]; rewrite S in Q; try discriminate Q; exact S | exact S]. }
+  rewrite Rn. simpl. apply in_app_or in Hk.
+  destruct Hk as [Hk|[<-|[]]]; [right; apply P; exact Hk | left; reflexivity].
+Qed.
+
+Theorem all_entered_early o n c cs t :
+  let s := run o (init n c) cs in In t (entered s) -> In t (early s).
+Proof.
+  intros s.
+  assert (G : InvA s /\ InvR s /\ (forall k, In k (entered s) -> In k (early s))).
+  { apply (run_inv o (fun x => InvA x /\ InvR x /\ (forall k, In k (entered x) -> In k (early x)))).
+    - intros x ch x' [I [R P]] H. split; [eapply step_InvA; eauto|]. split; [eapply step_InvR; eauto|].
+      eapply step_all_early; eauto.
+    - split; [apply InvA_init|]. split; [apply InvR_init | simpl; tauto]. }
+  destruct G as [_ [_ G]]. apply G.
+Qed.
+
+(* EVERY Execute that returned nil — whenever it did — has had its task run exactly once when
+   Shutdown is past wg.Wait *)
+Theorem accepted_run_once o n c cs t :
+  let s := run o (init n c) cs in
+  subs s t = SRet ROk -> joined (sh s) = true -> count_occ Nat.eq_dec (ran s) t = 1.
+Proof.
+  intros s Hr J. destruct (reach_Inv o n c cs) as [I B]. fold s in I, B.
+  apply run_once_state; try assumption.
+  apply all_entered_early. apply (b_ret_entered _ B). right. exact Hr.
+Qed.
+
+(* no Execute sends on the closed queue, none is thrown out by close(queue); a call ends in a panic
+   only through start()'s log.Panicf on an executor that is already shut down *)
+Theorem no_send_on_closed o n c cs :
+  let s := run o (init n c) cs in
+  bounced s = [] /\ (forall t, is_reader (subs s t) = true -> closed s = false /\ dn s = false /\ ph s = PRunning).
+Proof.
+  intros s. pose proof (reach_InvR o n c cs) as R. destruct (reach_Inv o n c cs) as [I _]. fold s in R, I.
+  split; [apply (r_bounced _ R)|]. intros t Hr.
+  pose proof (a_sh_ph _ I) as S. pose proof (a_past _ I t) as Q.
+  assert (Pc : past_check (subs s t) = true) by (destruct (subs s t); simpl in Hr; try discriminate; reflexivity).
+  specialize (Q Pc).
+  rewrite (a_closed_sh _ I), (a_dn_sh _ I).
+  destruct (r_reader _ R t Hr) as [X|X]; rewrite X in *; simpl in *; repeat split; auto.
+  destruct S as [S|[S|S]]; rewrite S in Q; try discriminate Q; exact S.
+Qed.
+
+Lemma step_panic_origin o s c s' : InvA s -> InvR s ->
+  (forall t, subs s t = SRet RPanic -> sh s <> ShIdle /\ sh s <> ShLocking) -> step o s c = Some s' ->
+  forall t, subs s' t = SRet RPanic -> sh s' <> ShIdle /\ sh s' <> ShLocking.
+Proof.
+  intros I R P H.
+  step_cases H; pose proof (a_sh_ph _ I) as Q; simpl; intros k Hk;
+  try (apply (P k); assumption);
+  try (revert Hk; upd_split k t; intros Hk; try discriminate Hk; try (apply (P k); assumption));
+  try (destruct (P k Hk) as [P1 P2]; split; congruence).
+  - revert Hk; upd_split k (next s); intros Hk; [discriminate Hk | apply (P k); assumption].
+  - rewrite Eph in Q. destruct (sh s); simpl in Q; try discriminate Q; try (destruct Q as [Q|[Q|Q]]; discriminate Q);
+    split; discriminate.
+  - rewrite Eph in Q. destruct (sh s); simpl in Q; try discriminate Q; try (destruct Q as [Q|[Q|Q]]; discriminate Q);
+    split; discriminate.
+  - exfalso. assert (Hr : is_reader (subs s t) = true) by (rewrite Esub; reflexivity).
+    pose proof (a_closed_sh _ I) as C. rewrite Ecl in C.
+    destruct (r_reader _ R t Hr) as [X|X]; rewrite X in C; discriminate C.
+  - exfalso. rewrite (r_bounced _ R) in Emb. discriminate Emb.
+Qed.
+
+(* Shutdown waits for the submitters parked in the send: while it waits for the lock its next step
+   is enabled exactly when no Execute is between its state check and its return; once it has the
+   state changed, no Execute is in there any more *)
+Theorem shutdown_waits_for_submitters o n c cs :
+  let s := run o (init n c) cs in
+  (sh s = ShLocking ->
+   (step o s Shut <> None <-> forall t, t < next s -> is_reader (subs s t) = false)) /\
+  (sh s <> ShIdle -> sh s <> ShLocking -> forall t, is_reader (subs s t) = false).
+Proof.
+  intros s. pose proof (reach_InvR o n c cs) as R. fold s in R. split.
+  - intros E. cbn [step]. rewrite E.
+    destruct (forallb (fun t => negb (is_reader (subs s t))) (seq 0 (next s))) eqn:F; split; intros H.
+    + intros t Ht. pose proof (forallb_seq_lt _ _ F t Ht) as X. simpl in X. destruct (is_reader (subs s t)); [discriminate X | reflexivity].
+    + discriminate.
+    + exfalso. apply H. reflexivity.
+    + exfalso. assert (F' : forallb (fun t => negb (is_reader (subs s t))) (seq 0 (next s)) = true).
+      { apply forallb_forall. intros t Ht. apply in_seq in Ht. rewrite H by lia. reflexivity. }
+      congruence.
+  - intros H1 H2 t. destruct (is_reader (subs s t)) eqn:E; [|reflexivity].
+    exfalso. destruct (r_reader _ R t E) as [X|X]; [exact (H1 X) | exact (H2 X)].
+Qed.
+
+Theorem panic_only_after_shutdown o n c cs t :
+  let s := run o (init n c) cs in subs s t = SRet RPanic -> sh s <> ShIdle /\ sh s <> ShLocking.
+Proof.
+  intros s.
+  assert (G : InvA s /\ InvR s /\ (forall k, subs s k = SRet RPanic -> sh s <> ShIdle /\ sh s <> ShLocking)).
+  { apply (run_inv o (fun x => InvA x /\ InvR x /\ (forall k, subs x k = SRet RPanic -> sh x <> ShIdle /\ sh x <> ShLocking))).
+    - intros x ch x' [I [R P]] H. split; [eapply step_InvA; eauto|]. split; [eapply step_InvR; eauto|].
+      eapply step_panic_origin; eauto.
+    - split; [apply InvA_init|]. split; [apply InvR_init | simpl; intros; discriminate]. }
+  destruct G as [_ [_ G]]. apply G.
 Qed.
